@@ -213,6 +213,21 @@ fn wrappers(call: &str) -> Vec<String> {
         format!("sort_by(`[1,2]`, &{})", call),
         format!("max_by(`[1]`, &\n{})", call),
         format!("`[[1]]`[?{}]", call),
+        // code points that some line-break conventions treat as line terminators, inside string tokens: only LF
+        // starts a new line
+        format!("'a\u{2028}b\u{2029}' && {}", call),
+        format!("\"\u{85}\u{2028}\" || \n'\r\u{b}\u{c}' && {}", call),
+    ]
+}
+
+/// the same call with white space between the function name and its '(' (the lexer accepts it): the error still
+/// points at the '('
+fn spaced(name: &str, args: &str) -> Vec<String> {
+    vec![
+        format!("{} ({})", name, args),
+        format!("{}\t\t({})", name, args),
+        format!("a ||\n {}\n({})", name, args),
+        format!("`[1]`[*].{}  ( {} )", name, args),
     ]
 }
 
@@ -231,7 +246,7 @@ pub fn run(tier: Tier) -> i32 {
     st = st.merge(sa);
     // multi-line / multi-byte prefixes in front of every short erroneous tail
     let tails = ["~", "a b", "a.", "[", "a[", "`x`", "\"q", "'r", "a ||", "-", "1", "a = b", "{a}", "f(", "a.1", "&", "[?", "٣"];
-    let prefixes = ["", "a ||\n", "\"é\".\n", "'😀😀' &&\n\n  ", "\"éé\\n\" |\t", "a\n.\nb\n.\n", "`\"é\"` == \"😀\" ||\r\n"];
+    let prefixes = ["'a\u{2028}b' && ", "\"k\u{2029}\".\n", "`\"\u{85}\"` |\u{20}", "'\u{b}\u{c}\r' && ", "", "a ||\n", "\"é\".\n", "'😀😀' &&\n\n  ", "\"éé\\n\" |\t", "a\n.\nb\n.\n", "`\"é\"` == \"😀\" ||\r\n"];
     for p in prefixes {
         for t in tails {
             st.states += 1;
@@ -281,6 +296,11 @@ pub fn run(tier: Tier) -> i32 {
             let call = format!("{}({})", name, args.join(", "));
             for w in wrappers(&call) {
                 check_runtime_error(&w, &d, "runtime-errors", st);
+            }
+            if *argc <= 2 {
+                for w in spaced(name, &args.join(", ")) {
+                    check_runtime_error(&w, &d, "runtime-errors-spaced-call", st);
+                }
             }
             // odometer
             let mut k = 0;
